@@ -138,6 +138,9 @@ def do_run(ids, tier, props_override):
             shutil.rmtree(d, ignore_errors=True)
     for f in set(os.listdir(os.path.join(VERIF, "replays"))) - before:
         os.remove(os.path.join(VERIF, "replays", f))
+    # (the driver puts the replay files of runs against a scratch repository here)
+    shutil.rmtree(os.path.join(VERIF, ".work", "replays-scratch"), ignore_errors=True)
+    shutil.rmtree(os.path.join(VERIF, ".work", "evidence-scratch"), ignore_errors=True)
 
 
 if __name__ == "__main__":
